@@ -121,6 +121,8 @@ pub struct Sig {
     pub phantom: bool,
     /// with `phantom`: `P: Proj` is mentioned, but only as `P::Out` in a parameter type (and there is no `K`)
     pub phantom_proj: bool,
+    /// the extra type parameter is only used behind references and says `?Sized` (inline or, with `gen_bound_where`, in the where clause)
+    pub gen_maybe_sized: bool,
 }
 
 const LT: [&str; 3] = ["'a", "'b", "'c"];
@@ -261,6 +263,9 @@ impl Sig {
         }
         if self.has_gen {
             let mut b: Vec<&str> = vec!["Default"];
+            if self.gen_maybe_sized && !self.params.contains(&PTy::Gen) && self.ret != RTy::Gen {
+                b.insert(0, "?Sized");
+            }
             if self.is_async && !self.maybe_send_off {
                 b.push("Send");
                 b.push("Sync");
@@ -701,6 +706,7 @@ pub fn gen_sig(t: &mut Tape, excl: &Excl) -> Sig {
         gen_mentions_deps: t.chance(1, 4),
         phantom: t.chance(1, 6),
         phantom_proj: t.chance(1, 3),
+        gen_maybe_sized: t.chance(1, 2),
     };
     if sig.phantom && sig.phantom_proj {
         sig.params.push(PTy::Proj);
@@ -819,6 +825,9 @@ pub fn gen_case(t: &mut Tape, excl: &Excl) -> Case {
     if matches!(sig.ret, RTy::FromDeps | RTy::FromArg(_) | RTy::FromElidedArg | RTy::OptFromArg(_) | RTy::FromNamedArgElided(_) | RTy::ResFromElidedArgOrStatic) {
         classes.push("borrowed_return");
         score += 1;
+    }
+    if sig.has_gen && sig.gen_maybe_sized && !sig.params.contains(&PTy::Gen) && sig.ret != RTy::Gen {
+        classes.push(if sig.gen_bound_where && !(sig.explicit_outlives && sig.outlives_inline) { "relaxed_bound_in_the_where_clause" } else { "relaxed_bound_inline" });
     }
     if sig.ret == RTy::ResFromElidedArgOrStatic {
         classes.push("elided_and_written_lifetimes_in_the_output");
